@@ -274,6 +274,53 @@ fn routing(present: [bool; 7]) {
     core::mem::forget((r, r2));
 }
 
+/// A present moment with ZERO gates stays present (with no values) in both conversions, next to a
+/// one-gate moment; word sizes 8 and 16; other header fields symbolic.
+#[kani::proof]
+#[kani::unwind(9)]
+#[kani::stub(alloc::fmt::format, crate::stubs::fmt_format)]
+fn c07_zero_gate_moment_stays_present() {
+    let mut h = any_header();
+    h.date = 2;
+    h.time = 5;
+    h.azimuth_angle = 1.0;
+    h.elevation_angle = 2.0;
+    let raw: u8 = kani::any();
+    let m = msg(h, [Some(block(0, 8, 2.0, 66.0, Vec::new())), Some(block(1, 8, 2.0, 129.0, vec![raw])), None, None, Some(block(0, 16, 2.8361, 2.0, Vec::new())), None, None]);
+    let r = match m.radial() {
+        Ok(r) => r,
+        Err(e) => {
+            core::mem::forget(e);
+            panic!("C07: radial() failed")
+        }
+    };
+    let r2 = match m.into_radial() {
+        Ok(r) => r,
+        Err(e) => {
+            core::mem::forget(e);
+            panic!("C07: into_radial() failed")
+        }
+    };
+    let both = [&r, &r2];
+    let mut i = 0;
+    while i < 2 {
+        let x = both[i];
+        match (x.reflectivity(), x.velocity(), x.differential_phase()) {
+            (Some(a), Some(b), Some(c)) => {
+                let (va, vb, vc) = (a.values(), b.values(), c.values());
+                assert!(va.len() == 0 && vb.len() == 1 && vc.len() == 0, "C07: one value per gate (zero gates -> zero values)");
+                core::mem::forget((va, vb, vc));
+            }
+            _ => panic!("C07: a present moment (zero gates) reported absent"),
+        }
+        assert!(x.spectrum_width().is_none() && x.correlation_coefficient().is_none(), "C07: absent moment reported present");
+        i += 1;
+    }
+    assert!(r == r2, "C07: borrowing and consuming conversions differ");
+    wit!(raw == 0);
+    core::mem::forget((r, r2));
+}
+
 #[kani::proof]
 #[kani::unwind(9)]
 #[kani::stub(alloc::fmt::format, crate::stubs::fmt_format)]
